@@ -289,9 +289,26 @@ private:
             for( ; it != end; ++it, ++dst_it )
             {
                 unsigned char c = get_color( *it, gray_color_t() );
-                *dst_it = this->_palette[ c ];
+                store_color( this->_palette[ c ], dst_it, is_read_only() );
             }
         }
+    }
+
+    // A palette color into the destination. A reader that converts has to hand it to its color converter like every
+    // other pixel: a plain assignment copies the channels by name and never calls the converter (read_and_convert_image
+    // of a palette file into gray8 delivered the red channel instead of the luminance).
+    using is_read_only = typename detail::is_read_only< ConversionPolicy >::type;
+
+    template< typename Iterator >
+    void store_color( rgba8_pixel_t const& color, Iterator dst, std::true_type /* is_read_only */ )
+    {
+        *dst = color;
+    }
+
+    template< typename Iterator >
+    void store_color( rgba8_pixel_t const& color, Iterator dst, std::false_type /* is_read_only */ )
+    {
+        this->_cc_policy.read( &color, &color + 1, dst );
     }
 
     template< typename View >
@@ -447,10 +464,11 @@ private:
             typename Buffer::const_iterator beg = buf.begin() + this->_settings._top_left.x;
             typename Buffer::const_iterator end = beg + this->_settings._dim.x;
 
-            std::copy( beg
-                     , end
-                     , view.row_begin( y - this->_settings._top_left.y )
-                     );
+            typename View::x_iterator dst = view.row_begin( y - this->_settings._top_left.y );
+            for( ; beg != end; ++beg, ++dst )
+            {
+                store_color( *beg, dst, is_read_only() );
+            }
         }
     }
 
